@@ -14,7 +14,7 @@ MINE = {"returned-value", "round-trip:stored-object-not-retrievable", "round-tri
         # bookkeeping invariant to be closed under the calls on the other pid as well
         "bookkeeping-not-exact", "other-pid-references-changed", "store-state:unterminated-line",
         "store-state:dup-line", "store-state:foreign-line"}
-KINDS = ["path", "Path", "stream", "bytesio", "decoder"]
+KINDS = ["path", "Path", "stream", "bytesio", "decoder", "written"]
 STORE_ALGOS = ["MD5", "SHA-1", "SHA-256", "SHA-384", "SHA-512"]
 
 
@@ -48,6 +48,8 @@ def menu_fn(w):
         for k in range(w.NK):
             n = len(w.contents[k])
             off = None if n <= 64 else [0, 1, 4095, 4096, 8191, 8192, 8193, n - 4096, n - 1, n]
+            if kind == "written" and n > 64:
+                continue
             m.append(step.StoreObj(0, k, kind=kind, offset=off if kind in ("stream", "bytesio") else 0,
                                    tagname=", data=%s" % kind))
     for k in range(w.NK):
